@@ -1272,6 +1272,22 @@ impl Traceable for JsObject {
                 if let Some(env) = &state.current_env {
                     visitor(env.copy_ref());
                 }
+                // Trace the environments of the enclosing block scopes
+                for env in &state.saved_env_stack {
+                    visitor(env.copy_ref());
+                }
+                // Trace a return/throw value waiting for a finally block
+                if let Some(
+                    crate::interpreter::bytecode_vm::SavedPendingCompletion::Return(
+                        JsValue::Object(obj),
+                    )
+                    | crate::interpreter::bytecode_vm::SavedPendingCompletion::Throw(
+                        JsValue::Object(obj),
+                    ),
+                ) = &state.saved_pending_completion
+                {
+                    visitor(obj.copy_ref());
+                }
                 // Trace delegated iterator for yield*
                 if let Some((iter_obj, next_method)) = &state.delegated_iterator {
                     visitor(iter_obj.copy_ref());
@@ -2877,6 +2893,10 @@ pub struct BytecodeGeneratorState {
     pub saved_call_stack: Vec<crate::interpreter::bytecode_vm::CallFrame>,
     /// Saved try stack (for resumption)
     pub saved_try_stack: Vec<crate::interpreter::bytecode_vm::TryHandler>,
+    /// Environments to return to when the block scopes open at the yield point are left
+    pub saved_env_stack: Vec<JsObjectRef>,
+    /// Completion waiting for a finally block that was running at the yield point
+    pub saved_pending_completion: Option<crate::interpreter::bytecode_vm::SavedPendingCompletion>,
     /// Register to store the result of yield
     pub yield_result_register: Option<u8>,
     /// The function environment (created on first call, reused on subsequent calls)
